@@ -166,7 +166,7 @@ func (e *Engine) newCtx(fn *ssa.Function, spec *FuncSpec, heaps map[string]Sort)
 		vals: map[ssa.Value]Val{}, declS: map[string]bool{}, reach: map[int]string{}, edges: map[[2]int]string{},
 		outSt: map[int]map[string]string{}, st: map[string]string{}, entry: map[string]string{}, notes: map[string]bool{},
 		kcount: map[string]int{}, boxes: map[Sort]bool{}, lits: map[string]string{}, ufs: map[string]bool{},
-		params: map[string]Val{}, heapsUsed: map[string]Sort{}}
+		params: map[string]Val{}, heapsUsed: map[string]Sort{}, hwm: map[string]string{}}
 	for n, s := range heaps {
 		c.heapsUsed[n] = s
 	}
@@ -266,7 +266,12 @@ func (c *FnCtx) script(o *Obligation, cover bool, coverBlock int, coverGuard str
 
 func (c *FnCtx) prelude(text string) string {
 	m := c.M
-	used := c.E.structsUsed(text)
+	var bt strings.Builder
+	bt.WriteString(text)
+	for bs := range c.boxes {
+		bt.WriteString(" " + string(bs) + " ")
+	}
+	used := c.E.structsUsed(bt.String())
 	// temporarily restrict struct emission
 	sub := &Model{structs: map[string]*StructInfo{}, typeIDs: m.typeIDs, arrSorts: m.arrSorts}
 	for n := range used {
